@@ -5,7 +5,7 @@ from common import *
 import hvgen
 import hvhist
 
-PROP_MODULES = ["HvsrVerif.Props.C11", "HvsrVerif.Props.C11Laws", "HvsrVerif.Props.C11Order"]
+PROP_MODULES = ["HvsrVerif.Props.C11", "HvsrVerif.Props.C11Laws", "HvsrVerif.Props.C11Order", "HvsrVerif.Props.C11Cov"]
 BRIDGE_MODULES = ["HvsrVerif.Bridge.PyStats"]
 
 
